@@ -813,6 +813,15 @@ class Gen:
         if kind == "clone":
             return {"op": "clone", "m": m}
         if kind == "roundTrip":
+            if strict:
+                # the in-alphabet condition asks for unique names of the named values; a previous round trip may
+                # have split a value that was used from two unrelated scopes into two values of the same name
+                seen = {}
+                for v in self.model_values(model):
+                    nm = real.values[v].name
+                    if nm and nm in seen:
+                        return {"op": "rename", "v": v, "name": self.name("r")}
+                    seen[nm] = v
             return {"op": "roundTrip", "m": m}
         raise AssertionError(kind)
 
